@@ -1,4 +1,5 @@
 import PfdlProofs.CheckLemmas
+import PfdlProofs.CheckLogic
 set_option linter.unusedSimpArgs false
 /-! C10 – validation rejects every catalogued static error wherever it occurs.
 
@@ -165,5 +166,58 @@ def exTask : Check.Task :=
       body := [.cloop false "i" none [.cond (.lit (.bool true)) [.svc exSvc] [.cloop true "j" none [.call exCall] 7] 3] 2] }
 def exProg : Check.Prog := { structs := [], tasks := [exTask] }
 example : (validate exProg).map (fun es => es.map (fun e => (e.kind, e.line))) = some [("unknown_task", 8)] := by decide +kernel
+
+/-- a guard that `checkTopExpr` lets pass has only And / Or with boolean operands, at every depth -/
+theorem topExpr_logicOk (env : Env) (vars : List (String × Ty)) (e : Expr) (line : Nat)
+    (h : (checkTopExpr env vars e).map (atLine line) = some []) : LogicOk env vars e := by
+  cases hc : checkTopExpr env vars e with
+  | none => simp [hc] at h
+  | some ks =>
+    have hk : ks = [] := by
+      cases ks with
+      | nil => rfl
+      | cons k ks => simp [hc, atLine] at h
+    subst hk
+    unfold checkTopExpr at hc
+    split at hc
+    · simp at hc
+    · exact checkExpr_logicOk env vars e hc
+
+/-- And / Or WITH AN OPERAND THAT IS NO BOOLEAN, anywhere inside the guard of a While Loop – below
+    comparisons, arithmetic, negations and parentheses alike (the defect repaired by `fix:` 454dcae:
+    `(r.n And r.m) < 3` was accepted) -/
+theorem logic_operand_in_while_guard (p : Prog) (errs : List Err) (h : validate p = some errs) (t : Task)
+    (e : Expr) (body : List Stmt) (line : Nat) (hn : Nested p t (.wloop e body line))
+    (hb : ¬ LogicOk (mkEnv p) t.variables e) : errs ≠ [] := by
+  apply nested_fault_reported p errs h t _ hn
+  intro hs
+  simp only [checkStmt] at hs
+  obtain ⟨a, b, _, hb2, hab⟩ := optAppend_some hs
+  have hbn : b = [] := (List.append_eq_nil_iff.mp hab.symm).2
+  subst hbn
+  exact hb (topExpr_logicOk _ _ e line hb2)
+
+/-- the same for the guard of a Condition -/
+theorem logic_operand_in_condition (p : Prog) (errs : List Err) (h : validate p = some errs) (t : Task)
+    (e : Expr) (ps fs : List Stmt) (line : Nat) (hn : Nested p t (.cond e ps fs line))
+    (hb : ¬ LogicOk (mkEnv p) t.variables e) : errs ≠ [] := by
+  apply nested_fault_reported p errs h t _ hn
+  intro hs
+  simp only [checkStmt] at hs
+  obtain ⟨a, b, _, hb2, hab⟩ := optAppend_some hs
+  have hbn : b = [] := (List.append_eq_nil_iff.mp hab.symm).2
+  subst hbn
+  exact hb (topExpr_logicOk _ _ e line hb2)
+
+/-- not vacuous, and the repaired case itself: with `n, m : number`, `(r.n And r.m) < 3` is not `LogicOk` -/
+example : ¬ LogicOk ⟨[⟨"R", [("n", .name "number"), ("m", .name "number")], 1⟩], []⟩ [("r", .name "R")]
+    (.bin "<" (.paren (.bin "And" (.path ["r", "n"]) (.path ["r", "m"]))) (.lit (.num 3 false))) := by
+  intro h
+  simp only [LogicOk] at h
+  have h2 := (h.1.2.2 (by decide)).1
+  have hf : exprIsBoolean ⟨[⟨"R", [("n", .name "number"), ("m", .name "number")], 1⟩], []⟩ [("r", .name "R")]
+      (.path ["r", "n"]) = some false := by decide +kernel
+  rw [hf] at h2
+  cases h2
 
 end Pfdl.Props.C10
